@@ -276,7 +276,8 @@ def shape_image(a, kind, params, tol, stratum):
             return f'image outline is empty but the mapped outline has {len(mp)} elements'
         fi, fm = _flat(img), _flat(mp)
         ext = max(1.0, max(abs(c) for p in fm for c in p))
-        thr = 2.0 * tol * (1.0 + norm) + 1e-9 * ext
+        # the outlines are produced at a tolerance far below the threshold, so that outline accuracy (property C10) is not what is measured here
+        thr = 50.0 * tol * (1.0 + norm) + 1e-9 * ext
         for q in fi[::3]:
             d = _dist_to_polyline(q, fm)
             if d > thr:
@@ -343,7 +344,7 @@ def gen_shape_images(rng, n):
             sweep = rng.choice([rng.uniform(0.3, 6.0), -rng.uniform(0.3, 6.0), math.pi / 2, -math.pi])
             # arc: center radii start sweep x_rotation
             params = c + [rng.uniform(0.5, 5), rng.uniform(0.5, 5), rng.uniform(-7, 7), sweep, rng.choice([0.0, rng.uniform(-7, 7)])]
-        yield shape_image(a, kind, params, 0.001, f'image-{kind}/{st}')
+        yield shape_image(a, kind, params, 1e-5, f'image-{kind}/{st}')
 
 
 def generate(rng, tier):
